@@ -73,6 +73,7 @@ def cases(seed, tier):
     else:
         # replay-idempotent points: a checkpoint and an explicit set of every motor before each reading
         pg.idempotent = True
+        pg.nonrewind = rng.choice([0.0, 0.0, 0.4])  # some readings taken with rewinding switched off
         if rng.random() < 0.35:
             # two runs open at once (interleaved, or a snapshot run nested inside the other one)
             body = pg.generic(cleanup=0.3, runs=2, nested=1.0)
